@@ -247,8 +247,12 @@ def check(col: Collector, tier: str):
             "the value's type must be terminal_enum_value(<the enum the member was looked up in>)", vat.loc)
     de = repo.function("define_enum")
     s = src(de.node)
-    col.add("C10.R5", de.short, "enum-registered-with-its-values-and-namespace", "ENumInfo(enum_name, enum_values, ns)" in s and "ns.enums[enum_name] = e" in s
-            and "define_ns(ns_name)" in s, "", de.loc)
+    # a new enum is built from (name, values, its namespace) and registered in that namespace under its name - whether through a local or directly
+    from sa.props._tr import deep as _deep_e
+    regs = [n for n in ast.walk(de.node) if isinstance(n, ast.Assign) and len(n.targets) == 1 and src(n.targets[0]) == "ns.enums[enum_name]"]
+    want_e = src(_deep_e(de.node, ast.parse("ENumInfo(enum_name, enum_values, ns)", mode="eval").body))
+    ok_e = len(regs) == 1 and src(_deep_e(de.node, regs[0].value)) == want_e and "define_ns(ns_name)" in want_e
+    col.add("C10.R5", de.short, "enum-registered-with-its-values-and-namespace", ok_e, "", de.loc)
 
     dn = repo.function("define_ns")
     rets = [r for r in walk_no_nested(dn.node) if isinstance(r, ast.Return)]
@@ -271,9 +275,15 @@ def check(col: Collector, tier: str):
         all_rest = isinstance(it_, ast.Subscript) and src(it_.slice) == "1:" and src(it_.value).replace('"', "'").endswith(".split('.')")
         descends = must_assign(lp.body, cur)
         created = [c for c in ast.walk(lp) if isinstance(c, ast.Call) and call_name(c) == "NameSpaceInfo"]
-        linked = len(created) == 1 and [src(a) for a in created[0].args] == [src(lp.target), cur] and \
-            any(isinstance(n, ast.Assign) and isinstance(n.targets[0], ast.Subscript) and src(n.targets[0].value).startswith(f"{cur}.") and src(n.targets[0].slice) == src(lp.target)
-                for n in ast.walk(lp))
+        # the node the child hangs under: the cursor as it stood at the start of the iteration - `cur` itself, or a local that took its value
+        # in the first statement of the loop body (parent = cur; cur = parent.get_ns(name) ...)
+        parents = {cur}
+        if lp.body and isinstance(lp.body[0], ast.Assign) and len(lp.body[0].targets) == 1 and isinstance(lp.body[0].targets[0], ast.Name) \
+                and src(lp.body[0].value) == cur:
+            parents = {lp.body[0].targets[0].id}       # from here on `cur` is re-bound: only the saved name denotes the parent
+        linked = len(created) == 1 and len(created[0].args) == 2 and src(created[0].args[0]) == src(lp.target) and src(created[0].args[1]) in parents and \
+            any(isinstance(n, ast.Assign) and isinstance(n.targets[0], ast.Subscript) and any(src(n.targets[0].value).startswith(f"{p_}.") for p_ in parents)
+                and src(n.targets[0].slice) == src(lp.target) for n in ast.walk(lp))
         col.add("C10.R5", dn.short, "walks-every-component", all_rest and descends and linked,
                 f"a.b.c must be resolved one component at a time: loop over every remaining component ({all_rest}), move the cursor into the child on EVERY "
                 f"iteration - found or created ({descends}), create a missing child under the cursor and register it there ({linked}); a cursor that only "
